@@ -60,8 +60,10 @@ class TlcResult:
         m = TLC_STATS.findall(out)
         self.generated = int(m[-1][0]) if m else 0
         self.distinct = int(m[-1][1]) if m else 0
-        self.ok = rc == 0 and "Model checking completed. No error has been found." in out
         self.invariant_violated = ("is violated" in out) or ("Postcondition" in out and "false" in out)
+        # with -continue TLC prints violations and still ends with "No error has been found" and rc 0
+        self.ok = rc == 0 and "Model checking completed. No error has been found." in out and not self.invariant_violated \
+            and "Error:" not in out
 
     def tail(self, n=40):
         lines = [l for l in self.out.splitlines()
